@@ -48,9 +48,12 @@ var (
 	cWork         = simrt.RegisterCounter("op_frames_processed")
 	cSharedJobs   = simrt.RegisterCounter("op_shared_readonly_frames")
 	cMarshalArena = simrt.RegisterCounter("op_marshal_and_mic_on_frames_over_the_arena")
+	cHandBuilt    = simrt.RegisterCounter("op_validate_and_marshal_on_hand_built_frames_in_unusual_states")
+	cHandRefused  = simrt.RegisterCounter("hand_built_frame_refused_by_every_operation_tried")
 	cOtherCID     = simrt.RegisterCounter("op_reuse_decode_command_then_another_cid")
 	cDuplicate    = simrt.RegisterCounter("op_same_bytes_decoded_twice_for_two_workers")
 	cErrChanged   = simrt.RegisterCounter("probe_kept_error_value_says_something_else_later_not_judged")
+	cCrossDir     = simrt.RegisterCounter("op_used_command_value_decodes_the_other_direction")
 	cErrKept      = simrt.RegisterCounter("probe_kept_error_values_read_again_later")
 	cBadText      = simrt.RegisterCounter("op_decode_of_text_that_is_not_a_frame")
 	cCrowd        = simrt.RegisterCounter("op_crowd_of_dozens_of_sessions_at_once")
@@ -768,7 +771,11 @@ func localOp(wd *world, id int, r *sim.Rand, bw *bandWatch) {
 	}
 	switch r.Intn(5) {
 	case 4:
-		marshalOnArena(wd, id, r)
+		if r.Intn(3) == 0 {
+			inspectHandBuilt(r)
+		} else {
+			marshalOnArena(wd, id, r)
+		}
 	case 0:
 		cryptoOnArena(wd, id, r)
 	case 1:
@@ -1283,6 +1290,129 @@ func marshalOnArena(wd *world, id int, r *sim.Rand) {
 				break
 			}
 		}
+	}
+}
+
+// inspectHandBuilt: a frame value assembled field by field (not decoded), with
+// members in states a decoder never produces - a rejoin-request whose
+// RejoinType member was left blank or does not fit its payload type, a
+// message type that does not fit the payload, a port without payload, a
+// payload without port, more FOpts than fit, a CFList of an unknown type.
+// The operations that only inspect a frame (Validate*MIC, Marshal*) may
+// refuse such a value; they do not repair it.
+func inspectHandBuilt(r *sim.Rand) {
+	simrt.Count(cHandBuilt)
+	var key spec.Key
+	r.Fill(key[:])
+	k := lorawan.AES128Key(key)
+	var eui lorawan.EUI64
+	r.Fill(eui[:])
+	var phy lorawan.PHYPayload
+	r.Fill(phy.MIC[:])
+	mtypes := []lorawan.MType{lorawan.JoinRequest, lorawan.JoinAccept, lorawan.UnconfirmedDataUp, lorawan.UnconfirmedDataDown,
+		lorawan.ConfirmedDataUp, lorawan.ConfirmedDataDown, lorawan.RejoinRequest, lorawan.Proprietary}
+	fits := r.Intn(4) != 0
+	switch r.Intn(6) {
+	case 0:
+		pl := &lorawan.RejoinRequestType1Payload{RejoinType: lorawan.JoinType(r.Intn(4)), RJCount1: uint16(r.Intn(1 << 16))}
+		if r.Intn(3) == 0 {
+			pl.RejoinType = lorawan.JoinType(r.Intn(256))
+		}
+		r.Fill(pl.JoinEUI[:])
+		r.Fill(pl.DevEUI[:])
+		phy.MHDR.MType, phy.MACPayload = lorawan.RejoinRequest, pl
+	case 1:
+		pl := &lorawan.RejoinRequestType02Payload{RejoinType: lorawan.JoinType(r.Intn(4)), RJCount0: uint16(r.Intn(1 << 16))}
+		if r.Intn(3) == 0 {
+			pl.RejoinType = lorawan.JoinType(r.Intn(256))
+		}
+		r.Fill(pl.NetID[:])
+		r.Fill(pl.DevEUI[:])
+		phy.MHDR.MType, phy.MACPayload = lorawan.RejoinRequest, pl
+	case 2:
+		pl := &lorawan.JoinRequestPayload{DevNonce: lorawan.DevNonce(r.Intn(1 << 16))}
+		r.Fill(pl.JoinEUI[:])
+		r.Fill(pl.DevEUI[:])
+		phy.MHDR.MType, phy.MACPayload = lorawan.JoinRequest, pl
+	case 3:
+		ja := &lorawan.JoinAcceptPayload{JoinNonce: lorawan.JoinNonce(r.Intn(1 << 24)), RXDelay: uint8(r.Intn(256)),
+			DLSettings: lorawan.DLSettings{RX2DataRate: uint8(r.Intn(20)), RX1DROffset: uint8(r.Intn(10)), OptNeg: r.Intn(2) == 0}}
+		r.Fill(ja.HomeNetID[:])
+		r.Fill(ja.DevAddr[:])
+		switch r.Intn(4) {
+		case 0:
+			ja.CFList = &lorawan.CFList{CFListType: lorawan.CFListType(r.Intn(4))} // no payload
+		case 1:
+			ja.CFList = &lorawan.CFList{CFListType: lorawan.CFListType(r.Intn(4)), Payload: &lorawan.DataPayload{Bytes: r.Bytes(r.Intn(20))}}
+		case 2:
+			ch := &lorawan.CFListChannelPayload{}
+			for i := range ch.Channels {
+				ch.Channels[i] = uint32(r.Intn(1<<24)) * 100
+				if r.Intn(4) == 0 {
+					ch.Channels[i] += uint32(1 + r.Intn(99)) // off the 100 Hz grid
+				}
+			}
+			ja.CFList = &lorawan.CFList{CFListType: lorawan.CFListType(r.Intn(2)), Payload: ch}
+		}
+		phy.MHDR.MType, phy.MACPayload = lorawan.JoinAccept, ja
+	default:
+		mp := &lorawan.MACPayload{FHDR: lorawan.FHDR{FCnt: uint32(r.Intn(1 << 30)), FCtrl: lorawan.FCtrl{ADR: r.Intn(2) == 0, ACK: r.Intn(2) == 0}}}
+		r.Fill(mp.FHDR.DevAddr[:])
+		switch r.Intn(5) {
+		case 0: // port without payload
+			port := uint8(r.Intn(256))
+			mp.FPort = &port
+		case 1: // payload without port
+			mp.FRMPayload = []lorawan.Payload{&lorawan.DataPayload{Bytes: r.Bytes(1 + r.Intn(20))}}
+		case 2: // more FOpts than the header can carry
+			mp.FHDR.FOpts = []lorawan.Payload{&lorawan.DataPayload{Bytes: r.Bytes(16 + r.Intn(10))}}
+		case 3: // MAC commands in both places
+			port := uint8(0)
+			mp.FPort = &port
+			mp.FHDR.FOpts = []lorawan.Payload{&lorawan.MACCommand{CID: lorawan.LinkCheckReq}}
+			mp.FRMPayload = []lorawan.Payload{&lorawan.MACCommand{CID: lorawan.DevStatusReq}}
+		default: // a command without the payload its CID asks for
+			mp.FHDR.FOpts = []lorawan.Payload{&lorawan.MACCommand{CID: lorawan.LinkADRReq}}
+		}
+		phy.MHDR.MType, phy.MACPayload = mtypes[2+r.Intn(4)], mp
+	}
+	if !fits {
+		phy.MHDR.MType = mtypes[r.Intn(len(mtypes))]
+	}
+	if r.Intn(8) == 0 {
+		phy.MHDR.Major = lorawan.Major(1 + r.Intn(3))
+	}
+	ver := lorawan.MACVersion(r.Intn(2))
+	ops := []func() error{
+		func() error { _, e := phy.ValidateUplinkJoinMIC(k); return e },
+		func() error { _, e := phy.ValidateDownlinkJoinMIC(lorawan.JoinType(r.Intn(4)), eui, lorawan.DevNonce(r.Intn(1<<16)), k); return e },
+		func() error { _, e := phy.ValidateUplinkDataMIC(ver, uint32(r.Intn(1<<16)), 1, 2, k, k); return e },
+		func() error { _, e := phy.ValidateUplinkDataMICF(k); return e },
+		func() error { _, e := phy.ValidateDownlinkDataMIC(ver, uint32(r.Intn(1<<16)), k); return e },
+		func() error { _, e := phy.MarshalBinary(); return e },
+		func() error { _, e := phy.MarshalText(); return e },
+		func() error { _, e := phy.MarshalJSON(); return e },
+		func() error { _, e := phy.MACPayload.MarshalBinary(); return e },
+	}
+	before := sim.DeepSig(&phy)
+	refused := 0
+	for i := 0; i < 4; i++ {
+		var err error
+		op := ops[r.Intn(len(ops))]
+		if quiet(func() { err = op() }) {
+			functional("hand-built:panic") // totality is not this property's subject
+			break
+		}
+		if err != nil {
+			refused++
+		}
+		if after := sim.DeepSig(&phy); after != before {
+			simrt.Report("readonly.modified:hand-built", fmt.Sprintf("a validate / marshal operation changed a hand-built frame it only inspects: before %s after %s (err=%v)", before, after, err))
+			return
+		}
+	}
+	if refused == 4 {
+		simrt.Count(cHandRefused)
 	}
 }
 
